@@ -45,6 +45,8 @@ def draw_range(rng, f):
         i = rng.randrange(n)
         if u < 0.04:
             return 0.0                                           # zero is a legal bound (not 'no bound')
+        if u < 0.055:
+            return rng.choice([float("inf"), float("-inf")])     # an unbounded side written as infinity
         if u < 0.30:
             return float(f[i])                                   # on a sample
         if u < 0.60:
@@ -66,7 +68,7 @@ def draw_range(rng, f):
     if u < 0.39:
         return [bound(), None]
     a, b = bound(), bound()
-    if rng.random() < 0.9 and a > b:
+    if rng.random() < 0.9 and float(a) > float(b):
         a, b = b, a                                              # 10 %: left inverted
     return [a, b]
 
